@@ -121,6 +121,12 @@ pub fn exec_case<H: Harness>(h: &H, case: &H::Case, record: bool) -> (Option<Vio
     let r = catch_unwind(AssertUnwindSafe(|| h.run(case, &mut rec)));
     let v = match r {
         Ok(Ok(())) => None,
+        // (engine T reports a panic inside an execution as a violation of its own: same rule as below)
+        Ok(Err(v)) if v.detail.contains("exceeded max_steps bound") => {
+            rec.count("inconclusive_step_bound");
+            rec.nontrivial = false;
+            None
+        }
         Ok(Err(v)) => Some(v),
         Err(_) => {
             let (loc, msg) = take_last_panic().unwrap_or(("?".into(), "panic".into()));
